@@ -39,6 +39,12 @@ Branches found in the code beyond the DESIGN alphabet:
   "cutoff family" (kind "cutfam", both tiers, full product: jitter in theta / phi / theta+phi / psi / all three x
   jitter mesh {3, 5 points} x size mesh {9, 35, 3, 2 points: longer and shorter than the jitter mesh, i.e. both
   loop nestings} x both cutoffs).  A weight that ties with the cutoff to rounding is inconclusive.
+* qac_apply() obtains qab indirectly as sqrt(|q|^2 - qc^2) and guards a slightly negative argument: every
+  evaluation now also carries detector points constructed ON the projections of the particle axes (and on the
+  in-plane perpendiculars) for its own view angles, theta gets the alternative 270, and an "axis family" (kind
+  "axisfam", both tiers) forms theta in {+-90, +-270, 0, 180} x a menu of 10 phi (multiples of 90 and generic) x
+  psi {generic, 0, 90} x {no jitter, phi jitter}.  A non-finite kernel value where the reference is finite is
+  reported as such (clause ":non-finite"), never left to a comparison of differences.
 An EMPTY angle mesh (e.g. rectangle, npts=2, nsigmas=3) is not a mesh of jitter angles and is not
 enumerated.
 """
@@ -74,13 +80,16 @@ JNPTS = [2, 3, 5]
 JWIDTHS = [5.0, 40.0]
 BOUNDS = {
     "quick": {"models": "all 21 oriented models", "D": 2,
-              "theta": "base generic; {0, 90, 180, generic negative}", "phi": "base generic; {0, generic negative, 270}",
+              "theta": "base generic; {0, 90, 180, 270, generic negative}", "phi": "base generic; {0, generic negative, 270}",
               "psi": "base generic; {0, 90}",
               "jitter": "per angle: {gaussian, uniform, rectangle, boltzmann} x npts {2,3,5} x width {5, 40} deg "
                         "+ one mesh truncated by the +-360 limits + a single-point mesh (npts=1) with width 10",
               "size": "first (3 or 9 points) / last volume parameter dispersed / as many as there are dispersity loops left",
               "cutoff": "0; {1e-5, ~0.02 seed-rotated}; + cutoff family: angle sets x jitter {3,5 pts} x size {9,35,3,2 pts} x cutoffs", "kernel": "Iqxy; Imagnetic driven with M0=1e-300",
-              "q": "17 detector points: 4 orbits under 90-degree rotation (quadrants, half-axes) + near-origin",
+              "q": "17 fixed detector points (4 orbits under 90-degree rotation: quadrants, half-axes; + near-origin) + per "
+                   "view 4 (symmetric) / <=12 (triaxial) points on the projected particle axes and their perpendiculars "
+                   "(three |q| each in the axis family)",
+              "axis family": "theta {+-90, +-270, 0, 180} x phi {0,90,180,270, 6 generic} x psi {generic,0,90} x {none, phi jitter}",
               "unoriented": "14 models", "oned": "all 21 oriented models"},
     "thorough": {"models": "all 21 oriented models", "D": 3, "alphabet": "as quick",
                  "unoriented": "every model without orientation parameters (compiled and pure Python)",
@@ -89,6 +98,8 @@ BOUNDS = {
 CASE_TIMEOUT = 900
 CUTOFF_TAILS = (0.0213, 0.0187, 0.0231, 0.0173, 0.0247, 0.0199, 0.0223, 0.0161)
 # cutoff family (both tiers, full product): jitter angle sets x jitter meshes x size meshes x cutoffs
+# axis family (both tiers, full product): special theta x phi menu (multiples of 90 and generic) x psi menu x phi jitter
+AXIS_THETAS = [90.0, -90.0, 270.0, -270.0, 0.0, 180.0]
 CUTFAM_JITTER = [["gaussian", 3, 40.0], ["gaussian", 5, 5.0]]
 CUTFAM_SIZE = [["first", "gaussian", 9, 0.15], ["first", "gaussian", 35, 0.15], ["first", "gaussian", 3, 0.15],
                ["last", "schulz", 2, 0.2]]
@@ -127,7 +138,7 @@ def base_cfg(ctx):
 
 def alternatives(ctx, dim):
     if dim == "theta":
-        return [0.0, 90.0, 180.0, _gen(ctx, "neg")]
+        return [0.0, 90.0, 180.0, 270.0, _gen(ctx, "neg")]
     if dim == "phi":
         return [0.0, _gen(ctx, "neg", 1), 270.0]
     if dim == "psi":
@@ -176,6 +187,34 @@ def detector_points(ctx):
     return np.array(pts, float)
 
 
+def axis_points(ctx, view, asym, mags=(0.087,)):
+    """
+    detector points constructed ON the projections of the particle axes (c; also a, b for triaxial shapes) into
+    the detector plane and on the in-plane perpendiculars, at the given |q| (one in the deviation blocks, three in the
+    axis family), in groups (p, p_perp, -p, -p_perp) like
+    detector_points.  With the axis exactly in the detector plane (theta = +-90, +-270) the point p has
+    qab^2 = |q|^2 - qc^2 = 0 up to rounding, the input on which the kernel's indirect qab needs its guard.
+    Returns (array (4k,2), in_plane: some axis lies in the detector plane to rounding).
+    """
+    theta, phi, psi = view
+    V = Rz(phi) @ Ry(theta) @ Rz(psi)
+    f = 1.0 if ctx.seed == 0 else ctx.factor(3)
+    pts, in_plane = [], False
+    for j in ((0, 1, 2) if asym else (2,)):
+        x, y = float(V[0, j]), float(V[1, j])
+        n = math.hypot(x, y)
+        if n < 1e-6:
+            continue            # axis along the beam: no direction in the detector plane
+        if abs(n - 1.0) > 1e-9:
+            x, y = x / n, y / n
+        else:
+            in_plane = True     # keep (cos phi, sin phi)-like components exactly as the rotation produces them
+        for mag in mags:
+            px, py = mag * f * x, mag * f * y
+            pts += [(px, py), (-py, px), (-px, -py), (py, -px)]
+    return np.array(pts, float).reshape(-1, 2), in_plane
+
+
 def setup(ctx):
     om = oriented_models()
     if len(om) < 21:
@@ -208,6 +247,8 @@ def cases(ctx):
         angle_sets = [["theta"], ["phi"], ["theta", "phi"]]
         if build.info(m).parameters.is_asymmetric:
             angle_sets += [["psi"], ["theta", "phi", "psi"]]
+        for th in AXIS_THETAS:
+            out.append({"kind": "axisfam", "model": m, "theta": th})
         for aset in angle_sets:
             for jspec in CUTFAM_JITTER:
                 for sspec in CUTFAM_SIZE:
@@ -336,7 +377,7 @@ def reference(sh, info, pars, view, jit, size, Q, cutoff=0.0):
 
 def run_case(case, ctx):
     kind = case["kind"]
-    if kind in ("orient", "cutfam"):
+    if kind in ("orient", "cutfam", "axisfam"):
         return _run_orient(case, ctx)
     if kind == "oned":
         return _run_oned(case, ctx)
@@ -370,20 +411,35 @@ def _run_orient(case, ctx):
     info = m.info
     sh = shim.load(ctx.notes["shim"][name], name)
     asym = info.parameters.is_asymmetric
-    Q = detector_points(ctx)
+    Q0 = detector_points(ctx)
     alpha = _gen(ctx, "alpha")
-    Q2 = Q @ Rz(alpha)[:2, :2].T
-    k1 = m.make_kernel([Q[:, 0].copy(), Q[:, 1].copy()])
-    k2 = m.make_kernel([Q2[:, 0].copy(), Q2[:, 1].copy()])
-    nq = len(Q)
-    # index pairs: q and -q; q and the same |q| on the perpendicular azimuth
-    orbit = [(1 + 4 * g + j, 1 + 4 * g + (j + 2) % 4, 1 + 4 * g + (j + 1) % 4) for g in range((nq - 1) // 4)
-             for j in range(4)]
+    kernels = {}
+
+    def detector(view):
+        """fixed detector points + points on the projected particle axes of this view; kernels cached per view"""
+        if view not in kernels:
+            Qa, in_plane = axis_points(ctx, view, asym, (0.033, 0.087, 0.19) if case["kind"] == "axisfam" else (0.087,))
+            Qv = np.concatenate([Q0, Qa], axis=0)
+            Qr = Qv @ Rz(alpha)[:2, :2].T
+            # index triples: q, -q, and the same |q| on the perpendicular azimuth
+            orb = [(1 + 4 * g + j, 1 + 4 * g + (j + 2) % 4, 1 + 4 * g + (j + 1) % 4)
+                   for g in range((len(Qv) - 1) // 4) for j in range(4)]
+            kernels[view] = (Qv, m.make_kernel([Qv[:, 0].copy(), Qv[:, 1].copy()]),
+                             m.make_kernel([Qr[:, 0].copy(), Qr[:, 1].copy()]), orb, len(Qa), in_plane)
+        return kernels[view]
+
     base = base_cfg(ctx)
     dims = case.get("dims", [])
     sld_names = [p.name for p in info.parameters.kernel_parameters if p.type == "sld"]
     todo = []
-    if case["kind"] == "cutfam":
+    if case["kind"] == "axisfam":
+        # special theta x phi menu x psi menu x {no jitter, phi jitter with a central mesh point}: full product
+        phis = [0.0, 90.0, 180.0, 270.0] + [_gen(ctx, "phi", k) for k in range(4)] + [_gen(ctx, "neg", k) for k in (1, 2)]
+        psis = [base["psi"], 0.0, 90.0] if asym else [base["psi"]]
+        for ph, ps, js in itertools.product(phis, psis, [None, ["gaussian", 3, 5.0]]):
+            cfg = dict(base, theta=case["theta"], phi=ph, psi=ps, jphi=js)
+            todo.append((cfg, {"theta": case["theta"], "phi": ph, "psi": ps, "jphi": js}))
+    elif case["kind"] == "cutfam":
         for jspec, sspec, cut in itertools.product([case["jitter"]], [case["size"]], alternatives(ctx, "cutoff")):
             cfg = dict(base, size=sspec, cutoff=cut)
             cfg.update({"j" + a: jspec for a in case["angles"]})
@@ -400,6 +456,7 @@ def _run_orient(case, ctx):
         pars = _defaults(info)
         pars["theta"], pars["phi"] = cfg["theta"], cfg["phi"]
         view = (cfg["theta"], cfg["phi"], cfg["psi"] if asym else 0.0)
+        Q, k1, k2, orbit, naxis, in_plane = detector(view)
         if asym:
             pars["psi"] = cfg["psi"]
         ref_pars = dict(pars)
@@ -439,6 +496,10 @@ def _run_orient(case, ctx):
                 raise HarnessError("%s: M0=1e-300 did not select the magnetic kernel" % name)
             br.append("magnetic-kernel")
         br.append("jitter-angles:%d" % njit)
+        if naxis:
+            br.append("on-axis-detector-points")
+        if in_plane:
+            br.append("axis-in-detector-plane" + (":phi-jitter" if cfg["jphi"] else ""))
         if cfg["theta"] in (0.0, 180.0):
             br.append("theta-pole")
         shown = {k: v for k, v in pars.items() if k in ("theta", "phi", "psi") or "_pd" in k or k.endswith("_M0")}
@@ -472,6 +533,15 @@ def _run_orient(case, ctx):
             r.fail("%s... raised %r" % (desc, exc), dict(fk, clause=fk["clause"] + ":raises"), sub, branches=br)
             continue
         tol = 1e-11 * mag + 1e-13 * fmax
+        if not (np.all(np.isfinite(A)) and np.all(np.isfinite(B))):
+            # never left to a comparison of differences: a NaN/inf where the reference is finite is a violation
+            bad_idx = np.flatnonzero(~np.isfinite(A)) if not np.all(np.isfinite(A)) else np.flatnonzero(~np.isfinite(B))
+            j = int(bad_idx[0])
+            r.fail("%s%s: kernel returns %r where the reference is %.15g (%d of %d detector points non-finite%s)"
+                   % (desc, Q[j].tolist(), float(A[j]) if not np.isfinite(A[j]) else float(B[j]), Iref[j], len(bad_idx),
+                      len(Q), "" if not np.all(np.isfinite(A)) else "; after rotating the points and phi by %g" % alpha),
+                   dict(fk, clause=fk["clause"] + ":non-finite"), sub, branches=br)
+            continue
         nt = bool(any(abs(A[i] - A[k]) > 1e-6 * abs(A[i]) for i, _, k in orbit))
         err = np.abs(A - Iref)
         if not np.all(err <= tol):
@@ -500,8 +570,9 @@ def _run_orient(case, ctx):
         if nt and not r.samples:
             r.sample({"call": desc + "%s" % Q[1:3].tolist(), "kernel": [float(v) for v in A[1:3]],
                       "reference": [float(v) for v in Iref[1:3]], "mesh_points": npoints})
-    k1.release()
-    k2.release()
+    for _, ka, kb, _, _, _ in kernels.values():
+        ka.release()
+        kb.release()
     return r
 
 
@@ -674,6 +745,9 @@ def finish(ctx, report):
     report.require("cutoff-excluded:jitter-loop-innermost", 100, "cutoff dropped >=1 point of a jittered mesh, jitter loop innermost")
     report.require("magnetic-kernel", 100, "Imagnetic instantiation")
     report.require("theta-pole", 100, "theta = 0 / 180")
+    report.require("on-axis-detector-points", 1000, "detector points on the projected particle axes")
+    report.require("axis-in-detector-plane", 300, "symmetry axis exactly in the detector plane, detector points on it")
+    report.require("axis-in-detector-plane:phi-jitter", 300, "the same with phi jitter (central mesh point on the axis)")
     report.require("angle-without-loop-slot", 100, "all dispersity loops taken, an un-jittered angle relies on the zero default")
     report.require("oned", 100, "1-D invariance configurations")
     report.require("oned-2d-moved", 50, "1-D invariance where the 2-D result does move")
